@@ -261,6 +261,56 @@ def rand_value(ctx, hashable=False, with_objs=True):
     return ctx.obj(c, is_task(c) and rng.random() < 0.5)
 
 
+NEAR_INT = [-1.5, -0.5, -2.25, -1e-300, -3.999999, 1.5, 2.0000001, -1000000.25]
+
+
+def near_miss(ctx, t):
+    """a value that is NOT of type t but close to one: what a careless coercion would let through"""
+    rng = ctx.rng
+    k = t["k"]
+    if k == "int":
+        return rng.choice([v_frac(rng.choice(NEAR_INT)), v_frac(rng.choice(NEAR_INT)), v_str(rng.choice(["1", "-2", "0"]))])
+    if k == "float":
+        return rng.choice([v_str("1.5"), v_str("0"), v_path("1")])
+    if k == "bool":
+        return rng.choice([v_int(0), v_int(1), v_str("True"), v_fint(1)])
+    if k == "str":
+        return rng.choice([v_path("a"), v_int(1), {"k": "list", "l": [v_str("a")]}])
+    if k == "path":
+        return rng.choice([v_int(1), {"k": "list", "l": [v_str("a")]}, v_frac(0.5)])
+    if k == "enum":
+        other = 1 - t["e"]
+        return rng.choice([{"k": "enum", "e": other, "m": 0}, v_int(1), v_str("A")])
+    if k == "list":
+        return rng.choice([{"k": "dict", "ps": []}, gen_conforming(ctx, t["t"]), v_str("ab")])
+    if k == "dict":
+        return rng.choice([{"k": "list", "l": []}, v_str("ab"), gen_conforming(ctx, t["vt"])])
+    return v_int(1)
+
+
+def gen_nearmiss(ctx, t):
+    """a conforming value in which the sub-value at one random position is replaced by a near miss OF THE TYPE
+    EXPECTED AT THAT POSITION (e.g. a negative non-integral float where an int is expected)"""
+    v = gen_conforming(ctx, t, coerce=0.1)
+
+    def typed_positions(v, t, path=()):
+        out = [(path, t)]
+        if t["k"] == "list" and v["k"] == "list":
+            for i, x in enumerate(v["l"]):
+                out += typed_positions(x, t["t"], path + (("l", i),))
+        elif t["k"] == "dict" and v["k"] == "dict":
+            for i, (a, b) in enumerate(v["ps"]):
+                out.append((path + (("k", i),), t["kt"]))
+                out += typed_positions(b, t["vt"], path + (("v", i),))
+        return out
+
+    path, tt = ctx.rng.choice(typed_positions(v, t))
+    nm = near_miss(ctx, tt)
+    if path and path[-1][0] == "k" and nm["k"] in ("list", "dict"):
+        nm = v_int(1) if tt["k"] != "int" else v_frac(-1.5)
+    return replace_at(v, path, nm), len(path)
+
+
 def positions(v, path=()):
     out = [path]
     if v["k"] == "list":
@@ -730,6 +780,33 @@ def gen_graph(rng, idx):
                     break
             if roots:
                 case["loaded"] = {"roots": roots, "region": sorted(region)}
+        # an upstream TASK loaded from a saved definition (load_objects gives it a job - it counts as submitted -
+        # and seals it without validating it), given to the submitted task or to a configuration it holds
+        if rng.random() < 0.25:
+            tid = len(nodes)
+            tnode = {"c": C_TK, "fields": {"a": v_int(idx * 16 + 14), "m": v_int(rng.randrange(3))}, "pre": []}
+            nodes.append(tnode)
+            members = [tid]
+            if rng.random() < 0.5:
+                nodes.append({"c": C_N, "fields": {"a": v_int(rng.randrange(5)), "m": v_int(rng.randrange(3))}, "pre": []})
+                members.append(tid + 1)
+                fld = rng.choice(["c", "cs", "dc"])
+                tnode["fields"][fld] = wrap(rng, SHAPES[C_TK][fld], [tid + 1])
+            if mode != "retry" and rng.random() < 0.6:
+                if case["removed"] is not None and removed_value is not None:
+                    nodes[case["removed"][0]]["fields"][case["removed"][1]] = removed_value
+                i = rng.choice(members)
+                f = rng.choice(REQUIRED[nodes[i]["c"]])
+                nodes[i]["fields"].pop(f, None)
+                case["removed"] = [i, f]
+            region_now = set((case.get("loaded") or {}).get("region", []))
+            holders = [0] + [i for i in range(nroots, n) if classes[i] == C_N2 and i not in region_now]
+            h = 0 if rng.random() < 0.6 else rng.choice(holders)
+            fld, shape = rng.choice(sorted(TASK_SHAPES[nodes[h]["c"]].items()))
+            nodes[h]["fields"][fld] = wrap(rng, shape, [tid] * (1 if shape == "obj" else rng.choice([1, 2])))
+            lo = case.setdefault("loaded", {"roots": [], "region": []})
+            lo["roots"].append(tid)
+            lo["region"] = sorted(set(lo["region"]) | set(members))
         # instance() - validate, seal, build - on the task or on a configuration, before the submits
         if rng.random() < 0.3:
             j = 0 if rng.random() < 0.5 else rng.randrange(n)
@@ -777,6 +854,7 @@ def oracle_graph(c, case, answers):
     visited_before = set()
     tried = set()
     accepted, rejected = set(), set()     # tasks by the outcome of their submits so far
+    accepted |= {i for i in (case.get("loaded") or {}).get("region", []) if case["nodes"][i]["c"] == C_TK}   # loaded: have a job
     job, init_now = {}, {}                # what the previous calls left on each object
     for k, op, a, nodes, inits, sealed in history(case, answers):
         subject = op["node"] if op["op"] == "set" else op["root"]
@@ -956,7 +1034,8 @@ def g_graph(case, table):
     ans = glist(f"{{| oa_raised := {gbool(a['raised'])}; oa_delta := {gnat(a['delta'])}; oa_job := {gbool(a.get('job', False))}; "
                 f"oa_init := {glist(gnat(j) for j in a.get('init', []))}; oa_sealed := {gbool(a.get('sealed', False))} |}}"
                 for a in case["ans"])
-    return f"{{| gc_heap := {glist(hs)}; gc_ops := {ops}; gc_ans := {ans} |}}"
+    jobs = glist(gnat(i) for i in sorted(region) if case["nodes"][i]["c"] == C_TK)    # a loaded task has a job
+    return f"{{| gc_heap := {glist(hs)}; gc_jobs := {jobs}; gc_ops := {ops}; gc_ans := {ans} |}}"
 
 
 # ------------------------------------------------------------------ case generation
@@ -965,8 +1044,8 @@ def gen_assign(rng):
     depth = rng.choice([0, 0, 1, 1, 2, 2, 3, 3, 4])
     t = gen_type(rng, depth)
     annot = t
-    stream = rng.choices(["conforming", "coercible", "offbyone", "none", "sealed", "nested-optional"],
-                         [22, 22, 40, 6, 4, 6])[0]
+    stream = rng.choices(["conforming", "coercible", "offbyone", "nearmiss", "none", "sealed", "nested-optional"],
+                         [20, 20, 32, 12, 6, 4, 6])[0]
     if stream == "nested-optional" and depth == 0:
         stream = "offbyone"
     if stream == "nested-optional":
@@ -995,6 +1074,8 @@ def gen_assign(rng):
         case["v"] = gen_conforming(ctx, t)
     elif stream == "coercible":
         case["v"] = gen_conforming(ctx, t, coerce=0.6)
+    elif stream == "nearmiss":
+        case["v"], case["edit_depth"] = gen_nearmiss(ctx, t)
     elif stream == "none":
         case["v"] = v_none()
     elif stream == "sealed":
